@@ -2,6 +2,7 @@ package base
 
 import (
 	"slices"
+	"strings"
 )
 
 type Sig struct {
@@ -79,7 +80,15 @@ func GetSortedTSignatures() []Sig {
 		if a.Frame > b.Frame {
 			return 1
 		}
-		return 0
+		// overloads and class/instance twins tie on method, class and frame:
+		// without a total order the listing follows map iteration order
+		if a.IsStatic != b.IsStatic {
+			if !a.IsStatic {
+				return -1
+			}
+			return 1
+		}
+		return strings.Compare(a.Detail, b.Detail)
 	})
 
 	return sortedSignatures
@@ -111,7 +120,15 @@ func GetSortedTSignaturesByClass() []Sig {
 		if a.Frame > b.Frame {
 			return 1
 		}
-		return 0
+		// overloads and class/instance twins tie on method, class and frame:
+		// without a total order the listing follows map iteration order
+		if a.IsStatic != b.IsStatic {
+			if !a.IsStatic {
+				return -1
+			}
+			return 1
+		}
+		return strings.Compare(a.Detail, b.Detail)
 	})
 
 	return sortedSignatures
